@@ -2,7 +2,6 @@ package http2utils
 
 import (
 	"bytes"
-	"crypto/rand"
 	"fmt"
 	"log"
 	"path/filepath"
@@ -102,7 +101,11 @@ func AddPadding(b []byte) []byte {
 
 	b[0] = uint8(n)
 
-	_, _ = rand.Read(b[nn+1 : nn+n])
+	// Padding octets are zero (RFC 7540 6.1). The buffer may have been
+	// resized into capacity that still holds old bytes.
+	for i := nn + 1; i < len(b); i++ {
+		b[i] = 0
+	}
 
 	return b
 }
